@@ -48,6 +48,8 @@ type rollCfg struct {
 	conform  bool // replay every execution's filesystem call log on the real filesystem
 	variant  string
 	openOnly bool            // only file creations may fail
+	zone     *time.Location  // the process's local zone (default UTC): file names carry local wall-clock time
+	syncOnly bool            // only fsync calls may fail (a target that cannot be synced: a pipe, a device, an I/O error at the end)
 	lands    []time.Duration // where in the next interval a clock tick may land (default: 1ms after the boundary)
 	interval time.Duration   // rotation interval (default: one hour)
 	skew     time.Duration   // != 0: writes are Append calls of events stamped clock+skew (the appender's clock is the wall clock, not the event)
@@ -57,6 +59,15 @@ type rollCfg struct {
 type idLayout struct{}
 
 func (idLayout) ToBytes(e *log.Event) []byte { return []byte(e.Tag + "\n") }
+
+func (c rollCfg) loc() *time.Location {
+	if c.zone != nil {
+		return c.zone
+	}
+	return time.UTC
+}
+
+func (c rollCfg) start() time.Time { return rollStart.In(c.loc()) }
 
 func (c rollCfg) iv() time.Duration {
 	if c.interval > 0 {
@@ -97,6 +108,12 @@ func (c rollCfg) name() string {
 	if c.skew != 0 {
 		s += fmt.Sprintf("/append-event-time%+v", c.skew)
 	}
+	if c.syncOnly {
+		s += "/failing-fsync"
+	}
+	if c.zone != nil {
+		s += fmt.Sprintf("/zone=%s/maxAge=%d", c.zone, c.maxAge)
+	}
 	return s
 }
 
@@ -109,6 +126,9 @@ func (c rollCfg) run(o *rollObs) {
 	x := zzvrt.Cur()
 	if c.openOnly {
 		x.FS.FaultOps = map[string]bool{"open": true}
+	}
+	if c.syncOnly {
+		x.FS.FaultOps = map[string]bool{"sync": true}
 	}
 	a := &log.RollingFileAppender{FileDir: rollDir, FileName: rollName, Rotation: log.TimeRotation{Interval: c.iv()}, MaxAge: c.maxAge}
 	if c.skew != 0 {
@@ -239,8 +259,8 @@ func rollCheck(prop string, c rollCfg, o *rollObs, x *zzvrt.Exec) (string, []zzv
 						if mp == nil || mq == nil {
 							return false
 						}
-						tp, _ := time.ParseInLocation("20060102150405", mp[1], time.UTC)
-						tq, _ := time.ParseInLocation("20060102150405", mq[1], time.UTC)
+						tp, _ := time.ParseInLocation("20060102150405", mp[1], c.loc())
+						tq, _ := time.ParseInLocation("20060102150405", mq[1], c.loc())
 						return tq.Truncate(c.iv()).Sub(tp.Truncate(c.iv())) >= 2*c.iv()
 					}
 				}
@@ -310,11 +330,11 @@ func rollCheck(prop string, c rollCfg, o *rollObs, x *zzvrt.Exec) (string, []zzv
 			add("C13", "write-duplicated", k, fmt.Sprintf("write %q is in %v", w.id, locs))
 		default:
 			m := rollNameRe.FindStringSubmatch(locs[0])
-			ft, _ := time.ParseInLocation("20060102150405", m[1], time.UTC)
+			ft, _ := time.ParseInLocation("20060102150405", m[1], c.loc())
 			if w.endAt.Before(ft) {
 				add("C13", "file-from-the-future", k, fmt.Sprintf("write %q completed at %s but is in %s", w.id, w.endAt.Format("150405"), locs[0]))
 			}
-			if len(c.writers) == 1 && !faulted && ft.Truncate(c.iv()).Before(w.startAt.Truncate(c.iv())) {
+			if len(c.writers) == 1 && !faulted && ft.Before(w.startAt.Truncate(c.iv()).Truncate(time.Second)) /* names have one-second resolution */ {
 				add("C13", "stale-file", k, fmt.Sprintf("single writer: write %q issued at %s landed in %s (an earlier interval)", w.id, w.startAt.Format("150405"), locs[0]))
 			}
 		}
@@ -323,7 +343,7 @@ func rollCheck(prop string, c rollCfg, o *rollObs, x *zzvrt.Exec) (string, []zzv
 		}
 	}
 	if c.preExist {
-		pre := rollDir + "/" + rollName + "." + rollStart.Format("20060102150405")
+		pre := rollDir + "/" + rollName + "." + c.start().Format("20060102150405")
 		if n, ok := x.FS.Nodes[pre]; !ok || !strings.HasPrefix(string(n.Data), "old-content\n") {
 			add("C13", "pre-existing-replaced", key, "content of the pre-existing file is gone")
 		}
@@ -360,7 +380,7 @@ func rollCheck(prop string, c rollCfg, o *rollObs, x *zzvrt.Exec) (string, []zzv
 		}
 		initial := map[string]string{}
 		if c.preExist {
-			initial[rollDir+"/"+rollName+"."+rollStart.Format("20060102150405")] = "old-content\n"
+			initial[rollDir+"/"+rollName+"."+c.start().Format("20060102150405")] = "old-content\n"
 		}
 		conformCount++
 		if d := theConformer.replay(x, initial); d != "" {
@@ -436,7 +456,7 @@ func rollScenario(prop string, c rollCfg, b zzvrt.Bounds) *zzvrt.Scenario {
 	return &zzvrt.Scenario{
 		Before: func() { resetAll(); o = rollObs{} },
 		Body:   func() { c.run(&o) },
-		Opts:   zzvrt.RunOpts{Bounds: b, Start: rollStart, TickStep: c.iv(), TickLands: c.lands},
+		Opts:   zzvrt.RunOpts{Bounds: b, Start: c.start(), TickStep: c.iv(), TickLands: c.lands},
 		Check:  func(x *zzvrt.Exec) (string, []zzvrt.Violation) { return rollCheck(prop, c, &o, x) },
 	}
 }
@@ -462,6 +482,26 @@ func init() {
 		reg(prop, rollCfg{writers: [][]string{{"a0", "a1"}, {"b0", "b1"}}}, "qt", bb{2, 2, 0}, bb{3, 3, 0})
 		reg(prop, rollCfg{writers: [][]string{{"a0"}, {"b0"}, {"c0"}}}, "t", bb{2, 2, 0}, bb{2, 3, 0})
 	}
+	// C13 in a process whose local zone is west / east of UTC (file names are local wall-clock time; whoever reads
+	// them back has to read them in the same zone) with a maximum age smaller than the zone's offset: the
+	// retention cleanup that follows every rotation leaves the live file and everything just written alone
+	for _, z := range []struct {
+		name string
+		off  int
+		age  int32
+	}{{"UTC-8", -8 * 3600, 6}, {"UTC-11", -11 * 3600, 5}, {"UTC+5:30", 5*3600 + 1800, 6}} { // (max ages above the 3 hours a scenario spans: nothing expires legitimately)
+		zn := time.FixedZone(z.name, z.off)
+		reg("C13", rollCfg{writers: [][]string{{"a0", "a1", "a2"}}, zone: zn, maxAge: z.age}, "qt", bb{1, 3, 0}, bb{2, 3, 0})
+		reg("C14", rollCfg{writers: [][]string{{"a0", "a1", "a2"}}, zone: zn, maxAge: z.age}, "qt", bb{1, 3, 0}, bb{2, 3, 0})
+	}
+	// C13 on rotation intervals that are not whole seconds / minutes (1.5 s, 90 s, 2.5 h): the interval grid is
+	// the one Truncate(interval) defines, a write just after a boundary of THAT grid goes to a new file
+	for _, ivl := range []time.Duration{1500 * time.Millisecond, 2500 * time.Millisecond, 90 * time.Second, 150 * time.Minute} {
+		reg("C13", rollCfg{writers: [][]string{{"a0", "a1", "a2", "a3"}}, interval: ivl, lands: []time.Duration{0, time.Millisecond}}, "qt", bb{0, 3, 0}, bb{1, 3, 0})
+	}
+	// C05 when fsync fails (at a rotation or at Stop): the descriptor is closed all the same
+	reg("C05", rollCfg{writers: [][]string{{"a0", "a1", "a2"}}, syncOnly: true}, "qt", bb{1, 2, 2}, bb{2, 3, 2})
+	reg("C05", rollCfg{writers: [][]string{{"a0", "a1"}}, restart: true, syncOnly: true}, "qt", bb{1, 2, 2}, bb{2, 2, 2})
 	// C13 with the clock landing anywhere in an interval: exactly on the boundary, just after it, in its second half
 	positions := []time.Duration{0, time.Millisecond, 45 * time.Minute}
 	reg("C13", rollCfg{writers: [][]string{{"a0", "a1", "a2"}}, lands: positions, variant: "tick-positions"}, "qt", bb{1, 3, 0}, bb{2, 3, 0})
